@@ -1062,6 +1062,12 @@ ldb_recover(ldb_t *db, ldb_edit_t *edit, int *save_manifest) {
   /* Recover in the order in which the logs were generated. */
   ldb_array_sort(&logs, compare_ascending);
 
+  /* Reserve the numbers of all logs before replaying any of them, so
+     that a table written during replay can never be given the number
+     of a log the descriptor does not know about yet. */
+  for (i = 0; i < (int)logs.length; i++)
+    ldb_versions_mark_file_number(db->versions, logs.items[i]);
+
   for (i = 0; i < (int)logs.length; i++) {
     rc = ldb_recover_log_file(db, logs.items[i],
                                   (i == (int)logs.length - 1),
